@@ -108,3 +108,17 @@ fn c07_select_rank_beyond_u32_is_none() {
     assert_eq!(idx.ib_select1(k), None);
     assert_eq!(idx.ib_select1_from(k, 0), None);
 }
+
+/// C04, fixed (c573939): the free `find_close` looked at a storage word that starts past
+/// `len` before its end-of-scan guard and panicked (debug: subtract with overflow;
+/// release: index out of bounds in `word_min_excess_i32`). After the fix the surplus
+/// word is never examined.
+#[test]
+fn c04_find_close_ignores_surplus_words() {
+    use succinctly::bp::find_close;
+    // 63 valid bits, all opens; one surplus word after them
+    assert_eq!(find_close(&[u64::MAX >> 1, 0u64], 63, 0), None);
+    assert_eq!(find_close(&[u64::MAX >> 1, u64::MAX], 63, 5), None);
+    // a match inside the valid bits is unaffected by the surplus word
+    assert_eq!(find_close(&[0b01u64, u64::MAX], 2, 0), Some(1));
+}
